@@ -214,25 +214,81 @@ Proof.
     rewrite node_at_snoc in Hn. exact Hn.
 Qed.
 
-(* sandbox mode, when realpath did not give up at a symlink loop: what is served is a regular file
-   physically below the root *)
-Lemma handle_confined_partial f root show accept fn p enc c :
-  kstat f root = KOk root NDir ->
-  no_loop_met f (root ++ snd (parse_posix fn)) ->
-  handle f root false show accept fn = SFile p enc c ->
+(* ---- the two branches of _resolve_path_to_response, inverted once ---- *)
+Definition after_resolve (f : fs) (root : path) (show : bool) (accept : str) (p : path) : sresp :=
+  match kstat f p with
+  | KOk q NDir => if show then (if path_prefix root p then SListing p (children f q) else S500) else S403
+  | KFuel => SFuel
+  | _ => file_lookup f p accept
+  end.
+
+(* sandbox branch (with the fixed-point check of fix 706b3e0) *)
+Lemma handle_sandbox_inv f root show accept fn r :
+  handle f root false show accept fn = r ->
+  (exists segs p0, parse_posix fn = (false, segs) /\ resolve f (root ++ segs) = RP_ok p0 /\
+     path_prefix root p0 = true /\ resolve f p0 = RP_ok p0 /\ r = after_resolve f root show accept p0)
+  \/ r = S404 \/ r = SFuel \/ r = S500.
+Proof.
+  unfold handle. destruct (parse_posix fn) as [isabs segs]. destruct isabs; [intros <-; auto|].
+  destruct (resolve f (root ++ segs)) as [p0|s0| | |] eqn:Er; try (intros <-; auto; fail).
+  destruct (path_prefix root p0) eqn:Epre; try (intros <-; auto; fail).
+  destruct (resolve f p0) as [p2|s2| | |] eqn:Er2; try (intros <-; auto; fail).
+  destruct (path_eqb p2 p0) eqn:Eq; try (intros <-; auto; fail).
+  apply path_eqb_eq in Eq. subst p2. intros <-. left. exists segs, p0. repeat split; auto.
+Qed.
+
+Lemma handle_follow_inv f root show accept fn r :
+  handle f root true show accept fn = r ->
+  (exists segs p0, parse_posix fn = (false, segs) /\
+     path_prefix root (snd (parse_posix (py_normpath (path_str (root ++ segs))))) = true /\
+     resolve f (snd (parse_posix (py_normpath (path_str (root ++ segs))))) = RP_ok p0 /\
+     r = after_resolve f root show accept p0)
+  \/ r = S404 \/ r = SFuel \/ r = S500.
+Proof.
+  unfold handle. destruct (parse_posix fn) as [isabs segs]. destruct isabs; [intros <-; auto|].
+  destruct (path_prefix root (snd (parse_posix (py_normpath (path_str (root ++ segs)))))) eqn:Epre;
+    try (intros <-; auto; fail).
+  destruct (resolve f (snd (parse_posix (py_normpath (path_str (root ++ segs)))))) as [p0|s0| | |] eqn:Er;
+    try (intros <-; auto; fail).
+  intros <-. left. exists segs, p0. repeat split; auto.
+Qed.
+
+Lemma after_resolve_file f root show accept p0 p enc c :
+  after_resolve f root show accept p0 = SFile p enc c ->
+  file_lookup f p0 accept = SFile p enc c /\ (forall q, kstat f p0 <> KOk q NDir).
+Proof.
+  unfold after_resolve. intro H.
+  destruct (kstat f p0) as [q0 [c0| |t|]| | | | |] eqn:Ek; try (split; [exact H|intros q E; discriminate]).
+  - destruct show; [destruct (path_prefix root p0)|]; discriminate.
+  - discriminate.
+Qed.
+
+Lemma file_lookup_not_listing f p accept d names : file_lookup f p accept <> SListing d names.
+Proof.
+  unfold file_lookup. destruct (rev p); [discriminate|].
+  destruct (try_encodings _ _ _ _ _) as [[[? ?] ?]|]; [discriminate|].
+  destruct (kstat f p) as [? [| | |]| | | | |]; discriminate.
+Qed.
+
+Lemma after_resolve_listing f root show accept p0 d names :
+  after_resolve f root show accept p0 = SListing d names ->
+  show = true /\ d = p0 /\ path_prefix root p0 = true /\ exists q, kstat f p0 = KOk q NDir /\ names = children f q.
+Proof.
+  unfold after_resolve. intro H.
+  destruct (kstat f p0) as [q0 [c0| |t|]| | | | |] eqn:Ek;
+    try (exfalso; exact (file_lookup_not_listing _ _ _ _ _ H)); try discriminate.
+  destruct show; [|discriminate]. destruct (path_prefix root p0) eqn:Epp; [|discriminate].
+  inversion H; subst. repeat split; auto. exists q0. auto.
+Qed.
+
+(* core: a PHYSICAL path below the root handed to the file response yields a regular file stored
+   physically below the root (also through the pre-compressed sibling) *)
+Lemma after_resolve_confined f root show accept p0 p enc c :
+  kstat f root = KOk root NDir -> Phys f p0 -> path_prefix root p0 = true ->
+  after_resolve f root show accept p0 = SFile p enc c ->
   path_prefix root p = true /\ Phys f p /\ lookup f p = Some (NFile c).
 Proof.
-  intros Hroot Hnl H. unfold handle in H.
-  destruct (parse_posix fn) as [isabs segs]. cbn [snd] in Hnl. destruct isabs; [discriminate|].
-  destruct (resolve f (root ++ segs)) as [p0|s0| | |] eqn:Er; try discriminate.
-  destruct (path_prefix root p0) eqn:Epre; [|discriminate].
-  pose proof (resolve_phys _ _ _ Hnl Er) as Hp0.
-  assert (Hfl : file_lookup f p0 accept = SFile p enc c /\
-                (forall q, kstat f p0 <> KOk q NDir)).
-  { destruct (kstat f p0) as [q0 [c0| |t|]| | | | |] eqn:Ek; try (split; [exact H|intros q E; discriminate]).
-    - destruct show; [destruct (path_prefix root p0)|]; discriminate.
-    - discriminate. }
-  destruct Hfl as [Hfl Hnd].
+  intros Hroot Hp0 Epre H. apply after_resolve_file in H as [Hfl Hnd].
   destruct (file_lookup_sound _ _ _ _ _ _ Hp0 Hfl) as (Hl & Hq & Hcase).
   split; [|auto].
   destruct Hcase as [->|(parent & name & ext & -> & ->)]; [exact Epre|].
@@ -241,9 +297,33 @@ Proof.
   - apply path_prefix_app. exact E.
 Qed.
 
+(* sandbox mode, when realpath did not give up at a symlink loop while resolving root/filename *)
+Lemma handle_confined_partial f root show accept fn p enc c :
+  kstat f root = KOk root NDir ->
+  no_loop_met f (root ++ snd (parse_posix fn)) ->
+  handle f root false show accept fn = SFile p enc c ->
+  path_prefix root p = true /\ Phys f p /\ lookup f p = Some (NFile c).
+Proof.
+  intros Hroot Hnl H. apply handle_sandbox_inv in H as [(segs & p0 & Hp & Er & Epre & Er2 & H)|[H|[H|H]]]; try discriminate.
+  rewrite Hp in Hnl. cbn [snd] in Hnl.
+  eapply after_resolve_confined; [exact Hroot|exact (resolve_phys _ _ _ Hnl Er)|exact Epre|symmetry; exact H].
+Qed.
+
+(* what the fixed-point check of fix 706b3e0 buys: it is enough that the SECOND realpath run (on the
+   path the first resolve() returned) did not give up at a loop -- whatever happened in the first *)
+Lemma handle_confined_fixedpoint f root show accept fn p enc c :
+  kstat f root = KOk root NDir ->
+  (forall p0, resolve f (root ++ snd (parse_posix fn)) = RP_ok p0 -> no_loop_met f p0) ->
+  handle f root false show accept fn = SFile p enc c ->
+  path_prefix root p = true /\ Phys f p /\ lookup f p = Some (NFile c).
+Proof.
+  intros Hroot Hnl H. apply handle_sandbox_inv in H as [(segs & p0 & Hp & Er & Epre & Er2 & H)|[H|[H|H]]]; try discriminate.
+  rewrite Hp in Hnl. cbn [snd] in Hnl.
+  eapply after_resolve_confined; [exact Hroot|exact (resolve_phys _ _ _ (Hnl p0 Er) Er2)|exact Epre|symmetry; exact H].
+Qed.
+
 (* what holds in sandbox mode for EVERY tree and filename, loops included: the path handed to the
-   file response is lexically below the root (but may still contain an unresolved link, see the
-   refutation below) *)
+   file response is lexically below the root and a fixed point of resolve() *)
 Lemma file_lookup_path f p accept q enc c :
   file_lookup f p accept = SFile q enc c ->
   q = p \/ exists parent name ext, p = parent ++ [name] /\ q = parent ++ [name ++ ext].
@@ -269,16 +349,8 @@ Lemma handle_lexically_confined f root show accept fn p enc c :
   handle f root false show accept fn = SFile p enc c ->
   path_prefix root p = true.
 Proof.
-  intros Hroot H. unfold handle in H.
-  destruct (parse_posix fn) as [isabs segs]. destruct isabs; [discriminate|].
-  destruct (resolve f (root ++ segs)) as [p0|s0| | |] eqn:Er; try discriminate.
-  destruct (path_prefix root p0) eqn:Epre; [|discriminate].
-  assert (Hfl : file_lookup f p0 accept = SFile p enc c /\
-                (forall q, kstat f p0 <> KOk q NDir)).
-  { destruct (kstat f p0) as [q0 [c0| |t|]| | | | |] eqn:Ek; try (split; [exact H|intros q E; discriminate]).
-    - destruct show; [destruct (path_prefix root p0)|]; discriminate.
-    - discriminate. }
-  destruct Hfl as [Hfl Hnd].
+  intros Hroot H. apply handle_sandbox_inv in H as [(segs & p0 & Hp & Er & Epre & Er2 & H)|[H|[H|H]]]; try discriminate.
+  symmetry in H. apply after_resolve_file in H as [Hfl Hnd].
   destruct (file_lookup_path _ _ _ _ _ _ Hfl) as [->|(parent & name & ext & -> & ->)]; [exact Epre|].
   apply path_prefix_snoc in Epre as [E|E].
   - exfalso. subst root. apply (Hnd (parent ++ [name])). exact Hroot.
@@ -292,12 +364,8 @@ Lemma handle_follow_lexical f root show accept fn p enc c :
     n = snd (parse_posix (py_normpath (path_str (root ++ segs)))) /\
     path_prefix root n = true /\ exists p0, resolve f n = RP_ok p0.
 Proof.
-  intro H. unfold handle in H.
-  destruct (parse_posix fn) as [isabs segs]. destruct isabs; [discriminate|].
-  set (n := snd (parse_posix (py_normpath (path_str (root ++ segs))))) in *.
-  destruct (path_prefix root n) eqn:Epre; [|discriminate].
-  destruct (resolve f n) as [p0|s0| | |] eqn:Er; try discriminate.
-  exists segs, n. repeat split; auto. exists p0. first [exact Er | reflexivity].
+  intro H. apply handle_follow_inv in H as [(segs & p0 & Hp & Epre & Er & H)|[H|[H|H]]]; try discriminate.
+  exists segs, (snd (parse_posix (py_normpath (path_str (root ++ segs))))). repeat split; auto. exists p0. exact Er.
 Qed.
 
 (* a directory listing is produced only when show_index is set, and only for a path lexically below the root *)
@@ -305,49 +373,23 @@ Lemma handle_listing f root follow show accept fn d names :
   handle f root follow show accept fn = SListing d names ->
   show = true /\ path_prefix root d = true.
 Proof.
-  intro H. unfold handle in H.
-  destruct (parse_posix fn) as [isabs segs]. destruct isabs; [discriminate|].
-  assert (G : forall p0,
-    match kstat f p0 with
-    | KOk q NDir => if show then (if path_prefix root p0 then SListing p0 (children f q) else S500) else S403
-    | KFuel => SFuel
-    | _ => file_lookup f p0 accept
-    end = SListing d names -> show = true /\ path_prefix root d = true).
-  { intros p0 H0. destruct (kstat f p0) as [q0 [c0| |t|]| | | | |] eqn:Ek;
-      try (unfold file_lookup in H0; destruct (rev p0); [discriminate|];
-           destruct (try_encodings _ _ _ _ _) as [[[? ?] ?]|]; [discriminate|];
-           rewrite ?Ek in H0; try discriminate;
-           destruct (kstat f p0) as [? [| | |]| | | | |]; discriminate).
-    - destruct show; [|discriminate]. destruct (path_prefix root p0) eqn:Epp; [|discriminate].
-      inversion H0; subst. auto.
-    - discriminate. }
-  destruct follow.
-  - set (n := snd (parse_posix (py_normpath (path_str (root ++ segs))))) in *.
-    destruct (path_prefix root n); [|discriminate].
-    destruct (resolve f n) as [p0|s0| | |] eqn:Er; try discriminate. exact (G p0 H).
-  - destruct (resolve f (root ++ segs)) as [p0|s0| | |] eqn:Er; try discriminate.
-    destruct (path_prefix root p0) eqn:Epre; [|discriminate]. exact (G p0 H).
+  intro H. destruct follow.
+  - apply handle_follow_inv in H as [(segs & p0 & Hp & Epre & Er & H)|[H|[H|H]]]; try discriminate.
+    symmetry in H. apply after_resolve_listing in H as (A & -> & B & _). auto.
+  - apply handle_sandbox_inv in H as [(segs & p0 & Hp & Er & Epre & Er2 & H)|[H|[H|H]]]; try discriminate.
+    symmetry in H. apply after_resolve_listing in H as (A & -> & B & _). auto.
 Qed.
 
-(* ... and, when realpath did not give up at a loop, the listed directory is the physical one *)
+(* ... and, when the second realpath run did not give up at a loop, the listed directory is the physical one *)
 Lemma handle_listing_physical f root show accept fn d names :
-  no_loop_met f (root ++ snd (parse_posix fn)) ->
+  (forall p0, resolve f (root ++ snd (parse_posix fn)) = RP_ok p0 -> no_loop_met f p0) ->
   handle f root false show accept fn = SListing d names ->
   Phys f d /\ node_at f d = Some NDir /\ names = children f d.
 Proof.
-  intros Hnl H. unfold handle in H.
-  destruct (parse_posix fn) as [isabs segs]. cbn [snd] in Hnl. destruct isabs; [discriminate|].
-  destruct (resolve f (root ++ segs)) as [p0|s0| | |] eqn:Er; try discriminate.
-  destruct (path_prefix root p0) eqn:Epre; [|discriminate].
-  pose proof (resolve_phys _ _ _ Hnl Er) as Hp0.
-  destruct (kstat f p0) as [q0 [c0| |t|]| | | | |] eqn:Ek;
-      try (unfold file_lookup in H; destruct (rev p0); [discriminate|];
-           destruct (try_encodings _ _ _ _ _) as [[[? ?] ?]|]; [discriminate|];
-           rewrite ?Ek in H; try discriminate;
-           destruct (kstat f p0) as [? [| | |]| | | | |]; discriminate).
-  - destruct show; [|discriminate]. rewrite Epre in H. inversion H; subst.
-    unfold kstat in Ek. apply kwalk_phys in Ek; [|exact Hp0]. cbn [app] in Ek. destruct Ek as [-> Hn]. auto.
-  - discriminate.
+  intros Hnl H. apply handle_sandbox_inv in H as [(segs & p0 & Hp & Er & Epre & Er2 & H)|[H|[H|H]]]; try discriminate.
+  rewrite Hp in Hnl. cbn [snd] in Hnl. pose proof (resolve_phys _ _ _ (Hnl p0 Er) Er2) as Hp0.
+  symmetry in H. apply after_resolve_listing in H as (A & -> & B & q & Ek & ->).
+  unfold kstat in Ek. apply kwalk_phys in Ek; [|exact Hp0]. cbn [app] in Ek. destruct Ek as [-> Hn]. auto.
 Qed.
 
 Lemma handle_absolute f root follow show accept fn : is_abs fn = true -> handle f root follow show accept fn = S404.
@@ -362,32 +404,57 @@ Proof.
   eapply handle_listing; eassumption.
 Qed.
 
-Lemma serve_path_confined_partial f prefix root show accept path_safe p enc c :
+Lemma serve_path_confined_fixedpoint f prefix root show accept path_safe p enc c :
   kstat f root = KOk root NDir ->
-  (forall fn, static_resolve prefix path_safe = Some fn -> no_loop_met f (root ++ snd (parse_posix fn))) ->
+  (forall fn p0, static_resolve prefix path_safe = Some fn ->
+     resolve f (root ++ snd (parse_posix fn)) = RP_ok p0 -> no_loop_met f p0) ->
   serve_path f prefix root false show accept path_safe = SFile p enc c ->
   path_prefix root p = true /\ Phys f p /\ lookup f p = Some (NFile c).
 Proof.
   intros Hr Hn H. unfold serve_path in H. destruct (static_resolve prefix path_safe) as [fn|] eqn:E; [|discriminate].
-  eapply handle_confined_partial; [exact Hr|exact (Hn fn eq_refl)|exact H].
+  eapply handle_confined_fixedpoint; [exact Hr|exact (fun p0 => Hn fn p0 eq_refl)|exact H].
 Qed.
 
-(* ---------------------------------------------------------------- the refutation *)
-(* /r (root) ; /r/a -> b ; /r/b -> a (a loop) ; /r/l -> ../o ; /o regular file "B" (outside).
-   filename "a/../l": realpath gives up at the loop, the rest "../l" is only normalised lexically,
-   /r/l passes relative_to(root) and is opened through the link: bytes of /o are served. *)
+(* ---------------------------------------------------------------- witnesses *)
+(* The escape repaired by fix 706b3e0:
+   /r (root) ; /r/a -> b ; /r/b -> a (a loop) ; /r/l -> ../o ; /o regular file "B" (outside).
+   filename "a/../l": realpath gives up at the loop, Path.resolve() returns /r/l (a link) which passes
+   relative_to(root); before the fix /o was served, now the fixed-point check refuses (404). *)
 Definition loop_fs : fs :=
   [([[114]], NDir); ([[114]; [97]], NLink [98]); ([[114]; [98]], NLink [97]);
    ([[114]; [108]], NLink [46; 46; 47; 111]); ([[111]], NFile [66])].
 Definition loop_fn : str := [97; 47; 46; 46; 47; 108].
 
-Lemma confined_refuted :
+Lemma loop_escape_repaired :
   kstat loop_fs [[114]] = KOk [[114]] NDir /\
-  handle loop_fs [[114]] false false [] loop_fn = SFile [[114]; [108]] None [66] /\
-  kstat loop_fs [[114]; [108]] = KOk [[111]] (NFile [66]) /\
-  path_prefix [[114]] [[111]] = false /\
   resolve loop_fs [[114]; [97]; [46; 46]; [108]] = RP_ok [[114]; [108]] /\
-  is_link (lookup loop_fs [[114]; [108]]) = true.
+  is_link (lookup loop_fs [[114]; [108]]) = true /\
+  resolve loop_fs [[114]; [108]] = RP_ok [[111]] /\
+  handle loop_fs [[114]] false false [] loop_fn = S404 /\
+  handle loop_fs [[114]] false true [] loop_fn = S404.
+Proof. vm_compute. repeat split; reflexivity. Qed.
+
+(* The escape that REMAINS after fix 706b3e0 (pre-compressed sibling):
+   /r (root) ; /r/d -> ../o ; /o dir (outside) ; /o/n -> "x/../n/../../r/d/n" (x missing) ; /o/n.gz file "S".
+   filename "d/n": realpath gives up when it meets /o/n again, the rest "../../r/d/n" normalises the answer
+   back to /r/d/n; stat() there fails with ENOENT (not ELOOP) so resolve() returns /r/d/n, a FIXED POINT of
+   resolve() that is below the root lexically; with Accept-Encoding: gzip the sibling /r/d/n.gz is lstat'ed
+   through the link d and /o/n.gz is served. *)
+Definition sib_fs : fs :=
+  [([[114]], NDir); ([[114]; [100]], NLink [46; 46; 47; 111]); ([[111]], NDir);
+   ([[111]; [110]], NLink [120; 47; 46; 46; 47; 110; 47; 46; 46; 47; 46; 46; 47; 114; 47; 100; 47; 110]);
+   ([[111]; [110; 46; 103; 122]], NFile [83])].
+Definition sib_fn : str := [100; 47; 110].
+Definition gzip_str : str := [103; 122; 105; 112].
+
+Lemma confined_refuted :
+  kstat sib_fs [[114]] = KOk [[114]] NDir /\
+  handle sib_fs [[114]] false false gzip_str sib_fn = SFile [[114]; [100]; [110; 46; 103; 122]] (Some gzip_str) [83] /\
+  klstat sib_fs [[114]; [100]; [110; 46; 103; 122]] = KOk [[111]; [110; 46; 103; 122]] (NFile [83]) /\
+  path_prefix [[114]] [[111]; [110; 46; 103; 122]] = false /\
+  resolve sib_fs [[114]; [100]; [110]] = RP_ok [[114]; [100]; [110]] /\
+  is_link (lookup sib_fs [[114]; [100]]) = true /\
+  handle sib_fs [[114]] false false [] sib_fn = S404.
 Proof. vm_compute. repeat split; reflexivity. Qed.
 
 (* a tree  /r (root, dir)  /r/f (file "A")  /r/l -> ../o   /o (file "B") used by the examples *)
@@ -396,3 +463,7 @@ Definition ex_fs : fs :=
 
 Lemma ex_no_loop : no_loop_met ex_fs ([[114]] ++ snd (parse_posix [102])).
 Proof. intros s H. vm_compute in H. discriminate. Qed.
+
+Lemma ex_no_loop_fixedpoint :
+  forall p0, resolve ex_fs ([[114]] ++ snd (parse_posix [102])) = RP_ok p0 -> no_loop_met ex_fs p0.
+Proof. intros p0 H. vm_compute in H. inversion H; subst. intros s E. vm_compute in E. discriminate. Qed.
